@@ -201,6 +201,20 @@ def d4(ctx, prog):
             problems.append('a failing join()/compute() of an accumulator is swallowed by TTestAnalysis.run')
         if any(e[0] == 'call' and e[1] == 'self._compute' for e in p.events[first_fault:]):
             problems.append('self._compute() is still reached after a join()/compute() raised')
+    # success paths: the result is formed (self._compute()) after the last accumulator was joined and computed
+    stale = None
+    n_ok = 0
+    for p in paths:
+        if any(e[0] == 'raise' and e[2] == 'implicit' and id(fl2.node_of(e)) in body_calls for e in p.events) or p.outcome[0] == 'raise':
+            continue
+        n_ok += 1
+        names = [e[1] for e in p.events if e[0] == 'call']
+        last_join = max([i for i, x in enumerate(names) if x.endswith('.join') or x.endswith('.compute')] + [-1])
+        if 'self._compute' not in names[last_join + 1:]:
+            stale = stale or ('the run returns without forming the result after the accumulators were joined: `result` keeps the value of the previous run (or does not exist)'
+                              if 'self._compute' not in names else 'self._compute() is called before the last accumulator is joined and computed: the statistic is formed from unfinished sums')
+    ctx.check(stale is None and n_ok > 0, 'C09-D4', f'{arun.key}::result formed last', stale or 'no successful path through run() found',
+              f'on each of {n_ok} successful paths self._compute() follows the last join()/compute()', arun.where())
     key = f'{arun.key}::join/compute in try'
     if n_fault == 0:
         raise AnalysisError('no faulting path found in TTestAnalysis.run')
